@@ -139,6 +139,11 @@ def recursive(n):
         yield 0
 
 
+def unicode_gen():
+    with PM("na\u00efve \u2713"):
+        yield "caf\u00e9 \u2014 \u2713 \u65e5\u672c"      # text outside ASCII in the source line, the manager's repr, the leaf
+
+
 def g2():
     with PM("b1") as b1, PM("b2"):  # noqa: F841
         yield from g3()
@@ -245,6 +250,7 @@ def scenarios():
         out.append((label, g, lambda: stackscope.extract(g)))
     gen_case("recursive generator, seven frames on one line", recursive, 6)
     gen_case("generator chain with nested with blocks", g1)
+    gen_case("source text and reprs outside ASCII", unicode_gen)
     gen_case("@contextmanager inner stacks, two deep", with_gcms)
     gen_case("ExitStack with GCM / push / callback / nested stack", with_exitstack, False)
     gen_case("ExitStack with a hidden (PRUNEd) child context", with_exitstack, True)
